@@ -430,7 +430,7 @@ LABELSETS = {'letters': ALLTYPES, 'ints': [1, 0, 3, 2], 'names': ['poly', 'solv'
 
 
 def run(rec, tier, seed):
-    depths = {'quick': {1: 5, 2: 4, 3: 3, 4: 2}, 'thorough': {1: 7, 2: 6, 3: 5, 4: 4}}[tier]
+    depths = {'quick': {1: 6, 2: 5, 3: 4, 4: 3}, 'thorough': {1: 7, 2: 6, 3: 5, 4: 4}}[tier]
     items = []
     for lname, labels in LABELSETS.items():
         for n in (1, 2, 3, 4):
